@@ -10,7 +10,7 @@ PROP = "C08"
 
 def body():
     S.store_check(
-        PROP, model_cfgs=["StoreBridge.cfg", "StoreDup.cfg", "StoreL1.cfg"], gen_cfgs=["StoreGenC04.cfg", "StoreGenC07.cfg", "StoreGenC07big.cfg", "StoreGenDup.cfg", "StoreGenL1C04.cfg", "StoreGenL1C07.cfg", "StoreGenL1U13.cfg"], quick_n=150, thorough_n=3000,
+        PROP, model_cfgs=["StoreBridge.cfg", "StoreDup.cfg", "StoreL1.cfg"], gen_cfgs=["StoreGenC04.cfg", "StoreGenC07.cfg", "StoreGenC07big.cfg", "StoreGenDup.cfg", "StoreGenDupR.cfg", "StoreGenL1C04.cfg", "StoreGenL1C07.cfg", "StoreGenL1U13.cfg"], quick_n=150, thorough_n=3000,
         kinds_note="bridge, l1info (L1 info tree and rollup exit tree)", invs=["ProofsVerify", "RootsMirror"],
         assumptions=["a proof is judged structurally: every sibling must carry the name of the reference sibling subtree, which implies that it folds to the root (keccak injective)"])
 
